@@ -204,6 +204,27 @@ func explainCmd(args []string) {
 }
 
 func init() {
+	// api: the exported functions and methods of the repository (input of tools/mkapi.sh)
+	extraCmds["api"] = func(args []string) {
+		fs := flag.NewFlagSet("api", flag.ExitOnError)
+		repo := fs.String("repo", "/repo", "")
+		fs.Parse(args)
+		p, err := Load(*repo, false, nil)
+		if err != nil {
+			fmt.Println("load:", err)
+			os.Exit(2)
+		}
+		var names []string
+		for _, f := range p.All {
+			if f.Obj != nil && f.Obj.Exported() && f.Lit == nil {
+				names = append(names, f.Name)
+			}
+		}
+		sort.Strings(names)
+		for _, n := range names {
+			fmt.Println(n)
+		}
+	}
 	extraCmds["callees"] = func(args []string) {
 		p, err := Load("/repo", true, nil)
 		if err != nil {
